@@ -88,7 +88,7 @@ CONTROL_PROFILE = gen.profile(
     routine_in_blocks=True)
 
 
-class Hang(Exception):
+class Hang(BaseException):    # not swallowed by the catch-alls of the code under test
     pass
 
 
@@ -118,6 +118,10 @@ INTERNAL = (
     (re.compile(r"'NoneType' object has no attribute '(parent|vars|params|"
                 r"globals|return_addr|constants)'"), 'call-stack-underflow'),
     (re.compile(r"at instruction None"), 'pc-outside-image'),
+    # the VM dereferenced a register or structure that the script's own
+    # commands never set up (None is not a value a script can produce there)
+    (re.compile(r"'NoneType' object has no attribute '(\w+)'"),
+     'none-dereferenced'),
     # a KeyError whose key is one of the VM's own enums: a dispatch table
     # has no entry for what the compiler emitted
     (re.compile(r"due to <\w+\.\w+: [^>]*>"), 'dispatch-on-enum'),
@@ -132,6 +136,8 @@ def classify_abort(message):
         if found:
             if name == 'dispatch-on-enum':
                 name += ':' + found.group(0)[8:].split(':')[0]
+            elif name == 'none-dereferenced':
+                name += ':' + found.group(1)
             return name
     return None
 
@@ -331,7 +337,7 @@ def mutated(draw):
 # routine): far more of these are accepted than of the token soup, so the
 # "accepted => executable" half of the property gets real exercise.
 L_VARS = ['a', 'b', 'c']
-L_ROUTINES = ['f', 'g', 'h']
+L_ROUTINES = ['f', 'g', 'h', 's']
 L_LIGHTS = ['"A"', '"x"', '"y"', '"nope"']
 L_REGS = ['hue', 'saturation', 'brightness', 'kelvin', 'duration', 'time',
           'red', 'green', 'blue']
@@ -340,7 +346,9 @@ L_OPS = ['+', '-', '*', '/', '%', '^', '<', '<=', '>', '>=', '==', '!=',
 L_PRELUDE = ('define m 5 assign a 1 assign b 2 assign c "A" '
              'define f with p q begin return { p + q } end '
              'define g begin wait end define h with p begin if p return 1 '
-             'return 0 end').split()
+             'return 0 end '
+             # a staging routine, meant to be called from a matrix block
+             'define s with p begin stage row p end').split()
 
 
 def _l_atom(draw, depth):
@@ -385,9 +393,9 @@ def _l_infix(draw, depth):
 
 
 def _l_call(draw, depth, bracketed):
-    name = draw(st.sampled_from(L_ROUTINES))
-    count = {'f': 2, 'g': 0, 'h': 1}[name]
-    if draw(st.integers(0, 9)) == 0:
+    name = draw(st.sampled_from(L_ROUTINES + ['k']))
+    count = {'f': 2, 'g': 0, 'h': 1, 'k': 0, 's': 1}[name]
+    if name == 'k' or draw(st.integers(0, 9)) == 0:
         count = draw(st.integers(0, 3))
     out = [name]
     for _ in range(count):
